@@ -104,7 +104,14 @@ ScenC20 == {Run(<<d1>>, None, pre, app, via, FALSE) : d1 \in MdDocsOf(1), pre \i
                      d2 \in {Md(MkTests(2, <<"pass">>))}, f \in {"unreadable", "unparsable"}, n1 \in {"pass", "failout"}}
            \cup {Run(<<Md(MkTests(1, <<n1>>))>>, None, <<>>, <<>>, "cli", TRUE) : n1 \in {"pass", "failout"}}
 
-Scenarios == CASE Focus = "C05" -> ScenC05 [] Focus = "C14" -> ScenC14 [] Focus = "C15" -> ScenC15 [] Focus = "C20" -> ScenC20
+\* prepended / appended test cases together with a test case that runs into its limit (results must stay aligned)
+SharedAndTimeout ==
+    {Run(<<Doc("md", tfm, None, "no", <<Kind(n1, "d1t1"), Tc("d1t2", "exit", 0, 3, None, "none", "stdout", "none", t, FALSE, None), Kind("pass", "d1t3")>>)>>,
+         None, pre, app, via, FALSE) :
+        n1 \in {"pass", "failcode", "failout"}, tfm \in {None}, t \in {1},
+        pre \in {<<Kind("pass", "p1")>>, <<Kind("failout", "p1")>>}, app \in {<<>>, <<Kind("pass", "a1")>>}, via \in {"cli", "fm"}}
+Scenarios == CASE Focus = "C05" -> ScenC05 \cup SharedAndTimeout [] Focus = "C14" -> ScenC14 [] Focus = "C15" -> ScenC15
+               [] Focus = "C20" -> ScenC20 \cup SharedAndTimeout
 
 Init == /\ sc \in Scenarios
         /\ d = 1 /\ k = 1 /\ clock = 0 /\ lim = None /\ isGlobal = FALSE /\ status = "-"
